@@ -249,8 +249,20 @@ def run_tie(pid, families, tier, seed, mharness, extra_ops_files=()):
     with open(casesf, "w") as fout:
         while pos < len(remaining):
             chunk = remaining[pos:pos + CHUNK]
-            p = subprocess.run([mharness, "eval"], input="\n".join(chunk) + "\n", stdout=subprocess.PIPE,
-                               stderr=subprocess.PIPE, env=env, text=True, errors="replace")
+            hung = False
+            try:
+                p = subprocess.run([mharness, "eval"], input="\n".join(chunk) + "\n", stdout=subprocess.PIPE,
+                                   stderr=subprocess.PIPE, env=env, text=True, errors="replace", timeout=900)
+            except subprocess.TimeoutExpired as te:
+                # an op that never returns inside the real code: everything printed before it is kept
+                hung = True
+                class _P: pass
+                p = _P()
+                so = te.stdout or ""
+                p.stdout = so if isinstance(so, str) else so.decode(errors="replace")
+                se = te.stderr or ""
+                p.stderr = se if isinstance(se, str) else se.decode(errors="replace")
+                p.returncode = -9
             lines = p.stdout.split("\n")
             if lines and lines[-1] == "":
                 lines.pop()
@@ -265,8 +277,10 @@ def run_tie(pid, families, tier, seed, mharness, extra_ops_files=()):
             culprit = chunk[len(lines)]
             err = p.stderr[-600:]
             kind = "exit" if (p.returncode == 1 and "mlr" in err and "goroutine" not in err and "panic" not in err) else "crash"
+            if hung:
+                kind = "hang"
             fout.write(culprit + " | " + kind + "\n")
-            if kind == "crash" and crash is None:
+            if kind in ("crash", "hang") and crash is None:
                 crash = {"op": culprit, "stderr": err}
             pos += 1
             restarts += 1
